@@ -3,6 +3,7 @@ package c12
 import (
 	"fmt"
 	"sort"
+	"strconv"
 	"strings"
 
 	"go.opentelemetry.io/otel/verif/internal/vk"
@@ -109,6 +110,13 @@ type Inst struct {
 	Kind  int    `json:"kind"`
 	Float bool   `json:"float"`
 	Unit  string `json:"unit"` // "" or "By"
+	// Again (synchronous instruments only): the program asks the meter for the
+	// same instrument a second time and makes the measurements whose Op.H is set
+	// through that second handle: 1 the identical request, 2 the name in upper
+	// case (names are case-insensitive: same instrument; only when no view
+	// selects by a lower-case name). Both handles are ONE instrument: one
+	// stream, one set table, every measurement counted once.
+	Again int `json:"again,omitempty"`
 }
 
 // View is one sdkmetric.NewView(criteria, mask). All given criteria must
@@ -153,6 +161,8 @@ type Op struct {
 	// NF: a non-finite value instead of K*2^E, float64 instruments only:
 	// 1 +Inf, 2 NaN, 3 -Inf (-Inf only where negative values are allowed).
 	NF int `json:"nf,omitempty"`
+	// H: measured through the instrument's second handle (Inst.Again != 0).
+	H bool `json:"h,omitempty"`
 }
 
 // Cycle is a batch of synchronous measurements, the observations every
@@ -177,6 +187,12 @@ type Case struct {
 	Pool      [][]vk.KV `json:"pool"` // attribute sets (distinct keys inside each)
 	Cycles    []Cycle   `json:"cycles"`
 	MultiCB   bool      `json:"multi_cb"` // observe through one RegisterCallback instead of per-instrument callbacks
+	// Reuse[r]: reader r collects into ONE ResourceMetrics every time (the way
+	// exporters and periodic readers do), so that each collection has to
+	// overwrite whatever the previous one left there; otherwise every
+	// collection gets a fresh ResourceMetrics, which is kept and compared at
+	// the end of the case.
+	Reuse []bool `json:"reuse,omitempty"`
 }
 
 func instName(i int) string { return fmt.Sprintf("inst%d", i) }
@@ -249,6 +265,15 @@ func normalize(c Case) Case {
 	if len(o.Readers) == 0 {
 		o.Readers = []int{0}
 	}
+	anyReuse := false
+	for r := range o.Readers {
+		anyReuse = anyReuse || (r < len(c.Reuse) && c.Reuse[r])
+	}
+	if anyReuse {
+		for r := range o.Readers {
+			o.Reuse = append(o.Reuse, r < len(c.Reuse) && c.Reuse[r])
+		}
+	}
 	anySel := false
 	for r := range o.Readers {
 		if r < len(c.Selectors) && len(c.Selectors[r]) > 0 {
@@ -276,6 +301,18 @@ func normalize(c Case) Case {
 		in.Kind = ((in.Kind % nKinds) + nKinds) % nKinds
 		if in.Unit != "" {
 			in.Unit = "By"
+		}
+		in.Again = ((in.Again % 3) + 3) % 3
+		if observable(in.Kind) {
+			in.Again = 0
+		}
+		if in.Again == 2 {
+			for _, v := range c.Views {
+				nm := ((v.NameMode % nNameModes) + nNameModes) % nNameModes
+				if nm == nmExact || (nm == nmPattern && v.Pattern != "*") {
+					in.Again = 1
+				}
+			}
 		}
 		o.Insts = append(o.Insts, in)
 	}
@@ -401,6 +438,9 @@ func normalize(c Case) Case {
 		if op.NF == 3 && nonNegative(k) {
 			op.NF = 1
 		}
+		if o.Insts[op.Inst].Again == 0 {
+			op.H = false
+		}
 		return op, true
 	}
 	for _, cy := range c.Cycles {
@@ -454,6 +494,21 @@ var specialSets = [][]vk.KV{
 	{{K: "a", T: "int", I: 2}, {K: "b", T: "str", S: "y"}, {K: "c", T: "bool", B: true}, {K: "zz", T: "int", I: 7}},
 	{{K: "a", T: "int", I: 1}, {K: "b", T: "str", S: "x"}, {K: "c", T: "bool", B: true}, {K: overflowAttr, T: "bool", B: false}, {K: "zz", T: "int", I: 7}},
 	{{K: "a", T: "int", I: 1}, {K: "b", T: "str", S: "x"}, {K: "c", T: "bool", B: true}, {K: "d", T: "int", I: 1}, {K: "zz", T: "int", I: 7}},
+	// sets that differ from a neighbour only in the TYPE of a value, in a
+	// float payload, or in the content / order / length of a slice value: each
+	// is a distinct attribute set and keeps its own identity
+	{{K: "zz", T: "float", F: 7}},
+	{{K: "zz", T: "float", F: 7.5}},
+	{{K: "zz", T: "str", S: "7"}},
+	{{K: "a", T: "float", F: 1}},
+	{{K: "a", T: "ints", IS: []int64{1}}},
+	{{K: "b", T: "strs", SS: []vk.Str{"x"}}},
+	{{K: "b", T: "strs", SS: []vk.Str{"x", "y"}}},
+	{{K: "b", T: "strs", SS: []vk.Str{"y", "x"}}},
+	{{K: "b", T: "strs", SS: []vk.Str{}}},
+	{{K: "b", T: "str", S: ""}},
+	{{K: "c", T: "bools", BS: []bool{true}}, {K: "a", T: "int", I: 1}},
+	{{K: "c", T: "floats", FS: []vk.F64{1, 2}}, {K: "a", T: "int", I: 1}},
 }
 
 const overflowIdx = nStructured // index of the overflow set in the space
@@ -475,8 +530,13 @@ func setFromIndex(i int) []vk.KV {
 	return out
 }
 
-func genPool(t *rapid.T, max int) [][]vk.KV {
-	n := vk.GenLen(max, 1, 2, 3, 4, 5, 6, 10, 11, max).Draw(t, "poolsize")
+func genPool(t *rapid.T, max int, limit int) [][]vk.KV {
+	corners := []int{1, 2, 3, 4, 5, 6, 10, 11, max}
+	if limit >= 4 && limit < max {
+		// pools just below, at and above the limit
+		corners = append(corners, limit-1, limit, limit+1, limit+1, limit+3)
+	}
+	n := vk.GenLen(max, corners...).Draw(t, "poolsize")
 	if n < 1 {
 		n = 1
 	}
@@ -507,11 +567,75 @@ func genPool(t *rapid.T, max int) [][]vk.KV {
 	return pool
 }
 
-func genEnv(t *rapid.T) string {
-	if rapid.IntRange(0, 24).Draw(t, "env_nonpositive") == 0 {
-		return rapid.SampledFrom([]string{"0", "-1"}).Draw(t, "env")
+// genLimitValue draws a limit L >= 1: mostly the small limits around which
+// the first-L-1 boundary is easy to hit, every L up to 12, sometimes a limit of
+// the order of the pool sizes (so that it is reached only by the larger pools)
+// and rarely a limit no generated history can reach (which must then behave
+// like "unlimited").
+func genLimitValue(t *rapid.T) int {
+	switch r := rapid.IntRange(0, 19).Draw(t, "limit_range"); {
+	case r < 9:
+		return rapid.SampledFrom([]int{1, 2, 2, 3, 3, 5, 10}).Draw(t, "limit")
+	case r < 16:
+		return rapid.IntRange(1, 12).Draw(t, "limit")
+	case r < 19:
+		return rapid.IntRange(8, 33).Draw(t, "limit")
 	}
-	return rapid.SampledFrom([]string{"", "1", "2", "3", "5", "10", "2", "3"}).Draw(t, "env")
+	return rapid.SampledFrom([]int{64, 100, 2000, 65536, 1 << 31, 1<<63 - 1}).Draw(t, "limit")
+}
+
+// spellLimit writes the integer n the way a person or a deployment template
+// may write an integer into an environment variable: plainly, zero-padded to
+// a fixed width, or with an explicit plus sign. All of them are the integer n
+// in the documented reading ("the integer limit value").
+func spellLimit(t *rapid.T, n int) string {
+	s := strconv.Itoa(n)
+	switch rapid.IntRange(0, 9).Draw(t, "spelling") {
+	case 5, 6, 7: // zero-padded
+		s = strings.Repeat("0", rapid.IntRange(1, 3).Draw(t, "zeros")) + s
+	case 8:
+		s = "+" + s
+	case 9:
+		s = "+" + strings.Repeat("0", rapid.IntRange(1, 2).Draw(t, "zeros")) + s
+	}
+	return s
+}
+
+// values the documentation says are ignored ("The value must be an integer
+// value. All other values are ignored"): only strings no reading takes for an
+// integer. Spellings whose status the documentation leaves open (0x10, 1_000,
+// 1e3, 2.0, surrounding blanks) are NOT generated.
+var notIntegers = []string{"abc", "true", "ten", "1.5", "5x", "x5", "+", "-", "5-", "--5", "1,5"}
+
+// genEnv draws the value of OTEL_GO_X_CARDINALITY_LIMIT.
+func genEnv(t *rapid.T) string {
+	// (rapid prefers the small values of a range: the common shape comes first)
+	switch r := rapid.IntRange(0, 49).Draw(t, "env_shape"); {
+	case r < 32:
+		return spellLimit(t, genLimitValue(t))
+	case r < 46:
+		return ""
+	case r < 48: // documented: <= 0 disables the limit, in every spelling
+		return rapid.SampledFrom([]string{"0", "-1", "0", "-1", "00", "-0", "+0", "-010", "-2000", "-9223372036854775808"}).Draw(t, "env")
+	case r < 49:
+		return rapid.SampledFrom(notIntegers).Draw(t, "env")
+	}
+	// beyond every integer type: ignored, or a limit never reached
+	return "99999999999999999999"
+}
+
+// genReuse: about one reader in three collects into one reused ResourceMetrics.
+func genReuse(t *rapid.T, nreaders int) []bool {
+	out := make([]bool, nreaders)
+	any := false
+	for r := range out {
+		out[r] = rapid.IntRange(0, 2).Draw(t, "reuse_rm") == 0
+		any = any || out[r]
+	}
+	if !any {
+		return nil
+	}
+	return out
 }
 
 func genReaders(t *rapid.T) []int {
@@ -592,6 +716,12 @@ func genInsts(t *rapid.T, max int) []Inst {
 			Unit:  rapid.SampledFrom([]string{"", "", "By"}).Draw(t, "unit"),
 		})
 	}
+	for i := range out {
+		// about one synchronous instrument in four is requested twice
+		if !observable(out[i].Kind) && rapid.IntRange(0, 3).Draw(t, "again") == 0 {
+			out[i].Again = rapid.IntRange(1, 2).Draw(t, "again_how")
+		}
+	}
 	return out
 }
 
@@ -621,6 +751,7 @@ var filterPairs = []vk.KV{
 	{K: "c", T: "bool", B: true}, {K: "c", T: "bool", B: false},
 	{K: overflowAttr, T: "bool", B: true}, {K: overflowAttr, T: "bool", B: false}, {K: overflowAttr, T: "str", S: "true"},
 	{K: "zz", T: "int", I: 7}, {K: "zz", T: "int", I: 8}, {K: "zz", T: "int", I: 9},
+	{K: "zz", T: "float", F: 7}, {K: "b", T: "strs", SS: []vk.Str{"x"}}, {K: "a", T: "float", F: 1},
 }
 
 // genValueFilter draws a filter that decides on key AND value.
@@ -927,6 +1058,9 @@ func genCycles(t *rapid.T, c *Case, maxOps, maxObs int) {
 				}
 				op.K, op.E = genValue(t, c.Insts[op.Inst].Kind)
 				op.NF = genNF(t, nonFinite, c.Insts[op.Inst])
+				if c.Insts[op.Inst].Again != 0 {
+					op.H = rapid.Bool().Draw(t, "second_handle")
+				}
 				cyc.Ops = append(cyc.Ops, op)
 			}
 		}
@@ -975,6 +1109,7 @@ func pruneUndetermined(c Case) Case {
 func genLimit(t *rapid.T) Case {
 	c := Case{Env: genEnv(t), Readers: genReaders(t)}
 	c.Selectors = genSelectors(t, len(c.Readers))
+	c.Reuse = genReuse(t, len(c.Readers))
 	c.Insts = genInsts(t, 2)
 	c.Views = []View{}
 	if rapid.IntRange(0, 2).Draw(t, "filtered") == 0 {
@@ -982,7 +1117,7 @@ func genLimit(t *rapid.T) Case {
 		genFilter(t, &v)
 		c.Views = append(c.Views, v)
 	}
-	c.Pool = genPool(t, 30)
+	c.Pool = genPool(t, 30, parseLimit(c.Env))
 	c.MultiCB = rapid.IntRange(0, 3).Draw(t, "multicb") == 0
 	genCycles(t, &c, 40, 14)
 	return normalize(pruneUndetermined(normalize(c)))
@@ -992,12 +1127,13 @@ func genLimit(t *rapid.T) Case {
 func genViewsCase(t *rapid.T) Case {
 	c := Case{Env: genEnv(t), Readers: genReaders(t)}
 	c.Selectors = genSelectors(t, len(c.Readers))
+	c.Reuse = genReuse(t, len(c.Readers))
 	c.Insts = genInsts(t, 4)
 	c.Views = genViews(t, &c, 5)
 	if c.Views == nil {
 		c.Views = []View{}
 	}
-	c.Pool = genPool(t, 12)
+	c.Pool = genPool(t, 12, parseLimit(c.Env))
 	c.MultiCB = rapid.IntRange(0, 3).Draw(t, "multicb") == 0
 	genCycles(t, &c, 16, 8)
 	return normalize(pruneUndetermined(normalize(c)))
